@@ -18,7 +18,8 @@ type Stream struct {
 	wg      sync.WaitGroup
 	Samples []float32
 	mu      sync.Mutex
-	calls   int
+	busy    bool
+	Backlog func() int
 }
 
 var (
@@ -26,9 +27,6 @@ var (
 	// Drain: when true a started stream consumes samples through the callback in a goroutine.
 	Drain = true
 	Last  *Stream
-	// SlowEvery > 0: the consumer sleeps 300 microseconds after every SlowEvery-th callback, so that the emulator
-	// regularly finds the sample channels full
-	SlowEvery = 0
 )
 
 func Reset() { InitCalls, TerminateCalls, CloseCalls = 0, 0, 0; Last = nil }
@@ -62,18 +60,35 @@ func (s *Stream) Start() error {
 					return
 				default:
 				}
-				s.cb(buf)
-				s.calls++
-				if SlowEvery > 0 && s.calls%SlowEvery == 0 {
-					time.Sleep(300 * time.Microsecond)
+				// pull-driven: a buffer is taken only when a whole one (63 stereo pairs) is waiting, so the callback never
+				// blocks half-way and "nothing left to do" is an exact condition (see Quiesce); the pause between polls
+				// makes this a slow consumer: the emulator regularly finds the channels full
+				s.mu.Lock()
+				bl := s.Backlog
+				s.mu.Unlock()
+				if bl == nil || bl() < 63 {
+					time.Sleep(60 * time.Microsecond)
+					continue
 				}
 				s.mu.Lock()
+				s.busy = true
+				s.mu.Unlock()
+				s.cb(buf)
+				s.mu.Lock()
 				s.Samples = append(s.Samples, buf...)
+				s.busy = false
 				s.mu.Unlock()
 			}
 		}()
 	}
 	return nil
+}
+
+// SetBacklog tells the consumer how to see the number of complete stereo pairs waiting for it.
+func (s *Stream) SetBacklog(f func() int) {
+	s.mu.Lock()
+	s.Backlog = f
+	s.mu.Unlock()
 }
 func (s *Stream) Close() error {
 	CloseCalls++
@@ -90,20 +105,22 @@ func (s *Stream) Taken() []float32 {
 	return append([]float32(nil), s.Samples...)
 }
 
-// Quiesce waits until the consumer goroutine has taken everything it can (the count of completed buffers no longer
-// changes) and returns the samples of the completed buffers.
+// Quiesce waits until the consumer has taken every whole buffer that is available (exact: fewer than 63 pairs are
+// waiting and no buffer is being copied; the caller guarantees that the emulator is not running) and returns the
+// samples of the completed buffers.
 func (s *Stream) Quiesce() []float32 {
-	last, stable := -1, 0
-	for stable < 5 {
-		time.Sleep(2 * time.Millisecond)
+	for {
 		s.mu.Lock()
-		n := len(s.Samples)
+		busy, bl := s.busy, s.Backlog
 		s.mu.Unlock()
-		if n == last {
-			stable++
-		} else {
-			last, stable = n, 0
+		if !busy && (bl == nil || bl() < 63) {
+			s.mu.Lock()
+			busy = s.busy
+			s.mu.Unlock()
+			if !busy {
+				return s.Taken()
+			}
 		}
+		time.Sleep(200 * time.Microsecond)
 	}
-	return s.Taken()
 }
